@@ -7,12 +7,22 @@ use serde_json::json;
 use std::collections::HashSet;
 
 fn subset(names: [&str; 2], mask: usize) -> Vec<(Uuid, u32)> {
+    // masks 0..3: subsets with positive counts; 4: first item listed with 0 repetitions + second; 5: only the first, 0 repetitions
     let mut v = vec![];
-    if mask & 1 != 0 {
-        v.push((uid(names[0]), 3));
-    }
-    if mask & 2 != 0 {
-        v.push((uid(names[1]), 4));
+    match mask {
+        4 => {
+            v.push((uid(names[0]), 0));
+            v.push((uid(names[1]), 7));
+        }
+        5 => v.push((uid(names[0]), 0)),
+        _ => {
+            if mask & 1 != 0 {
+                v.push((uid(names[0]), 3));
+            }
+            if mask & 2 != 0 {
+                v.push((uid(names[1]), 4));
+            }
+        }
     }
     v
 }
@@ -330,8 +340,8 @@ pub fn run(ctx: &Ctx) -> i32 {
     }
     // ---- usage chain
     let g = match ctx.tier {
-        Tier::Quick => Grid::new(&[("walls", 21), ("s1", 6), ("s2", 6), ("l1", 6), ("l2", 6), ("t1", 3), ("y1", 4), ("y2", 1), ("w1", 4), ("w2", 1)]),
-        Tier::Thorough => Grid::new(&[("walls", 21), ("s1", 6), ("s2", 6), ("l1", 6), ("l2", 6), ("t1", 3), ("y1", 4), ("y2", 4), ("w1", 4), ("w2", 4)]),
+        Tier::Quick => Grid::new(&[("walls", 21), ("s1", 6), ("s2", 3), ("l1", 6), ("l2", 3), ("t1", 3), ("y1", 6), ("y2", 1), ("w1", 6), ("w2", 1)]),
+        Tier::Thorough => Grid::new(&[("walls", 21), ("s1", 6), ("s2", 6), ("l1", 6), ("l2", 6), ("t1", 3), ("y1", 6), ("y2", 6), ("w1", 6), ("w2", 6)]),
     };
     let n1 = g.size();
     let fix = |t: &mut Vec<usize>| {
@@ -389,7 +399,7 @@ pub fn run(ctx: &Ctx) -> i32 {
     }
     ctx.finish(
         "model_checking",
-        &format!("usage chain full product ({} models): 0..2 walls x (space{{s1,s2}} x next_to{{None,s2}}) x 2 spaces x (loads{{-,l1,l2}} x thermostat{{-,t1}}) + one never-referenced space x 2 loads x (people{{-,y1,y2}} x equipment{{-,y2}}) x thermostat temp_max{{-,y1,y2}} x yearly schedules x weeks subsets x weekly x days subsets; construction chain full product ({} models): 0..2 walls x cons{{c1,c2,absent}} x layers subsets x 0..2 windows x cons{{k1,k2,absent}} x (glass{{g1,g2,absent}} x frame{{f1,f2,absent}})^2 x bridge lengths{{0,-0,1e-9,0.005,1,-1}}; oracle: independent reachability => exact survivor list in original order per collection, idempotence (byte-identical JSON), no new checker warning, and (every 211th / 53rd model + 7 shipped models as shipped and with unused items inserted) a_ref, volumes, K, n50, q_soljul, compactness unchanged", n1, n2),
+        &format!("usage chain full product ({} models): 0..2 walls x (space{{s1,s2}} x next_to{{None,s2}}) x 2 spaces x (loads{{-,l1,l2}} x thermostat{{-,t1}}) + one never-referenced space x 2 loads x (people{{-,y1,y2}} x equipment{{-,y2}}) x thermostat temp_max{{-,y1,y2}} x yearly schedules x weeks subsets (incl. entries listed with 0 repetitions) x weekly x days subsets (idem); construction chain full product ({} models): 0..2 walls x cons{{c1,c2,absent}} x layers subsets x 0..2 windows x cons{{k1,k2,absent}} x (glass{{g1,g2,absent}} x frame{{f1,f2,absent}})^2 x bridge lengths{{0,-0,1e-9,0.005,1,-1}}; oracle: independent reachability => exact survivor list in original order per collection, idempotence (byte-identical JSON), no new checker warning, and (every 211th / 53rd model + 7 shipped models as shipped and with unused items inserted) a_ref, volumes, K, n50, q_soljul, compactness unchanged", n1, n2),
         true,
         json!({"usage_space": n1, "cons_space": n2}),
     )
